@@ -127,7 +127,15 @@ def rule_sql2(A: Analysis, rep, Q=None):
     binds = [c for c in walk_local(fi.node) if isinstance(c, ast.Call) and isinstance(c.func, ast.Attribute) and c.func.attr == "execute" and len(c.args) == 2]
     loops_t = [l for l in walk_local(fi.node) if isinstance(l, ast.For) and norm(l.iter) == "tasks"]
     tv = norm(loops_t[0].target) if loops_t else "?"
-    rep.check(all(norm(c.args[1]) == "(str(%s),)" % tv and id(c) in {id(x) for x in ast.walk(loops_t[0])} for c in binds) and len(binds) >= 1 and bool(loops_t), "SQL2", "per-task binding", fi.node, "",
+    def _bind_txt(c):
+        # the bound parameters, through a local that is (re)assigned inside the same loop iteration
+        a = c.args[1]
+        if isinstance(a, ast.Name) and loops_t:
+            ds = [d for d in A.defs(fi, a.id) if isinstance(d, ast.Assign)]
+            if len(ds) == 1 and id(ds[0]) in {id(x) for x in ast.walk(loops_t[0])}:
+                return norm(ds[0].value)
+        return norm(a)
+    rep.check(all(_bind_txt(c) == "(str(%s),)" % tv and id(c) in {id(x) for x in ast.walk(loops_t[0])} for c in binds) and len(binds) >= 1 and bool(loops_t), "SQL2", "per-task binding", fi.node, "",
               "per-task queries are not bound to str(<task id>) inside the loop over `tasks`")
     rep.expect_min("SQL2", 6)
     return Q
